@@ -98,6 +98,16 @@ def cases(rng, tier, shard, nshards):
         if 'step_ratio' in opts and rng.random() < 0.3:
             opts['step_ratio'] = int(opts['step_ratio'])           # the same ratio given as a Python int
         size = 0 if rng.random() < 0.6 else int(rng.integers(2, 10))
+        if i % 8 == 5:
+            # a stratum of its own: residues at real poles beyond 1 in magnitude (the nominal step is not 1 there) with the default
+            # step generator, at most the ratio chosen
+            kind, path, cz = 'residue', 'radial', False
+            opts = {} if rng.random() < 0.3 else dict(step_ratio=float(rng.choice([2.0, 3.0, 4.0])))
+            yield dict(kind=kind, kernel=kernel, g=str(rng.choice(GS)), a=float(np.round(rng.uniform(0.3, 1.5), 3)),
+                       z0=[float(np.round(rng.choice([-1, 1]) * rng.uniform(1.05, 3.0), 3)), 0.0],
+                       method=method, path=path, order=int(rng.integers(1, 9)), opts=opts, size=0 if rng.random() < 0.7 else size,
+                       pole=int(rng.integers(1, 4)), seed=int(rng.integers(0, 2 ** 31)), use_limit_method=False)
+            continue
         yield dict(kind=kind, kernel=kernel, g=str(rng.choice(GS)), a=float(np.round(rng.uniform(0.3, 1.5), 3)),
                    z0=[float(np.round(rng.uniform(-3, 3), 3)) if not cz else float(np.round(rng.uniform(-1, 1), 3)),
                        float(np.round(rng.uniform(-1, 1), 3)) if cz else 0.0],
